@@ -74,6 +74,19 @@ Theorem c12_streamed_join_linear_work : forall k is_left L R inv cs,
 Proof. exact streamed_linear_work. Qed.
 Print Assumptions c12_streamed_join_linear_work.
 
+(* the same for every PREFIX of an execution, so also for runs that end in the clear ValueError: `iters ... d0 it ks d'`
+   says that `it` completed iterations of the driver's main loop lead from d0 to d' and executed ks kernel loop bodies;
+   `init_drv cs lc rc` is the state the driver starts in (JoinSteps.streamed_cnt_init, main_loop_cnt_iters) *)
+Theorem c12_streamed_join_linear_work_prefix : forall k is_left L R inv cs,
+  kind_pre k L R -> 1 <= cs ->
+  forall lc rc it ks d',
+  fetch_chunk (v_ltrim (mkvar k is_left)) 0 cs L = Ok lc -> fetch_chunk (v_rtrim (mkvar k is_left)) 0 cs R = Ok rc ->
+  iters k is_left L R inv cs (init_drv cs lc rc) it ks d' ->
+  (it <= length L + length R + length (join_spec is_left inv L R))%nat /\
+  (ks <= 2 * (length L + length R + length (join_spec is_left inv L R)) + it)%nat.
+Proof. exact streamed_linear_work_prefix. Qed.
+Print Assumptions c12_streamed_join_linear_work_prefix.
+
 (* the hypotheses are satisfiable by a non-trivial input; the counters evaluated; too little fuel is OutOfFuel *)
 Theorem c12_linear_nonvacuous :
   kind_pre KGen [1;1;2;3;3;5;6;8] [1;3;3;4] /\
